@@ -116,6 +116,25 @@ mod proofs {
         assert!((Scalar::new(y) < f) == (y < x));
     }
 
+    // ---------------------------------------------------------------- C06 (truthiness tables of the scalar kinds)
+    /// "A bare value is true unless it is nil or false ... while 0 ... are true": every integer and every float is truthy,
+    /// a boolean is its own truth value, nil is not truthy; numbers and booleans are never empty/blank/default
+    #[kani::proof]
+    #[kani::unwind(2)]
+    fn c06_truthiness_of_scalars() {
+        use liquid_core::model::State;
+        let i = Scalar::new(kani::any::<i64>());
+        let f = Scalar::new(kani::any::<f64>());
+        let bv: bool = kani::any();
+        let b = Scalar::new(bv);
+        assert!(i.query_state(State::Truthy) && f.query_state(State::Truthy));
+        assert!(b.query_state(State::Truthy) == bv);
+        assert!(!i.query_state(State::Empty) && !i.query_state(State::Blank) && !i.query_state(State::DefaultValue));
+        assert!(!f.query_state(State::Empty) && !f.query_state(State::Blank) && !f.query_state(State::DefaultValue));
+        assert!(!b.query_state(State::Empty));
+        assert!(b.query_state(State::DefaultValue) == !bv);
+    }
+
     // ---------------------------------------------------------------- C12
     /// "an integer outside the signed 64-bit range is rejected or carried as a float, never turned into a different integer"
     #[kani::proof]
